@@ -30,7 +30,8 @@ type ChildResult struct {
 	Err   string          // handler returned an error
 	Panic string          // recovered panic (message + stack)
 	Died  string          // process died while executing this case (tail of its stderr)
-	Hung  bool            // the child's watchdog fired during this case
+	Hung  bool            // the child's watchdog fired during this case, and again when the case was re-run alone
+	Reran bool            // the watchdog fired once and the case was run again alone
 }
 
 // Faulted reports whether the case panicked or killed the child.
@@ -118,6 +119,8 @@ type ChildOpts struct {
 	CaseTimeout time.Duration // watchdog per case (wall clock; firing => Hung/inconclusive)
 	RlimitMB    int           // address-space limit for the child (0 = none)
 	Env         []string
+
+	confirming bool // internal: this is the second, solitary run of a case whose watchdog fired
 }
 
 // RunChildren executes cases of a registered kind in child processes. Every case is
@@ -270,9 +273,20 @@ func runChunk(scratch, kind string, cases []interface{}, results []ChildResult, 
 		if len(tail) > 6000 {
 			tail = tail[:3000] + "\n...\n" + tail[len(tail)-3000:]
 		}
-		if hung {
+		if hung && !o.confirming {
+			// wall clock is no verdict on a loaded machine: the case is run again, alone, in a fresh child
+			// with a watchdog of at least five minutes; Hung is reported only if that run stalls as well
+			o2 := o
+			o2.confirming = true
+			if o2.CaseTimeout < 300*time.Second {
+				o2.CaseTimeout = 300 * time.Second
+			}
+			results[culprit] = ChildResult{Index: culprit, Reran: true}
+			runChunk(scratch, kind, cases, results, culprit, culprit+1, o2, w)
+			results[culprit].Reran = true
+		} else if hung {
 			results[culprit].Hung = true
-			results[culprit].Died = "watchdog: no progress for " + o.CaseTimeout.String() + "\n" + tail
+			results[culprit].Died = "watchdog: no progress for " + o.CaseTimeout.String() + " (second run, alone)\n" + tail
 		} else {
 			results[culprit].Died = "child exited: " + cmd.ProcessState.String() + "\n" + tail
 		}
